@@ -272,6 +272,49 @@ theorem C16_alien_ident_counterexample :
 example : Keying.cpython [] = Keying.real ∧ GState.start [] = GState.init := ⟨rfl, rfl⟩
 example (perf : Bool) (sch : List (ThreadId × Op)) : interW [] [] perf sch = inter perf sch := rfl
 
+/-! ## attributes of a thread that are not its identity (its NAME, its daemon flag, ...)
+
+A thread's name is chosen by the program (`Thread(name=..)`, `current_thread().name = ..`); any number of live threads
+may carry the same one.  The library as written (`Keying.real` / `Keying.cpython`) never looks at it: the model has no
+name component at all, so the statements above hold for every naming of the threads, and renaming is a no-op
+(`Op.note`).  A library that derived the deduplication scope from such an attribute is `Keying.byAttr attr`. -/
+
+/-- the deduplication scope derived from an attribute `attr t` of the thread (its name ...) instead of the Thread
+    object; thread-local holders as written -/
+def Keying.byAttr (attr : ThreadId → Nat) : Keying := { slot := id, key := attr }
+
+/-- such a keying separates the threads exactly if no two threads (alive at the same time or one after the other)
+    ever have the same value of the attribute -/
+theorem C16_attr_key_separates_iff (attr : ThreadId → Nat) :
+    (Keying.byAttr attr).Separates ↔ ∀ t u, attr t = attr u → t = u :=
+  ⟨fun h => h.2, fun h => ⟨fun _ _ e => e, h⟩⟩
+
+/-- threads 0 and 1 are called alike (name 7), thread 2 has a name of its own (8); all three call the same
+    deduplicated function with the same key -/
+def nameClash : List (ThreadId × Op) := [(0, .dedupCall 0 7), (1, .dedupCall 0 7), (2, .dedupCall 0 7)]
+
+/-- **thread name in `cache_key` instead of the Thread object**: thread 1 is handed the in-flight task of its namesake
+    thread 0 (`dedup 1 0 _` = "the stored task") where alone it creates its own; thread 2, whose name nobody shares,
+    is not disturbed.  With the library's keying all three are undisturbed. -/
+theorem C16_thread_name_key_counterexample :
+    ¬ (Keying.byAttr fun t => if t = 2 then 8 else 7).Separates ∧
+    (∀ op ∈ opsOf 1 nameClash, op.isShared = false) ∧
+    proj 1 (gRun (Keying.byAttr fun t => if t = 2 then 8 else 7) false nameClash).2 = [(.dedupCall 0 7, .dedup 1 0 0)] ∧
+    proj 1 (gRun (Keying.byAttr fun t => if t = 2 then 8 else 7) false (only 1 nameClash)).2 = [(.dedupCall 0 7, .dedup 0 0 0)] ∧
+    proj 2 (gRun (Keying.byAttr fun t => if t = 2 then 8 else 7) false nameClash).2 =
+      proj 2 (gRun (Keying.byAttr fun t => if t = 2 then 8 else 7) false (only 2 nameClash)).2 ∧
+    (∀ t ∈ [0, 1, 2], proj t (gRun Keying.real false nameClash).2 = proj t (gRun Keying.real false (only t nameClash)).2) := by
+  refine ⟨fun h => absurd (h.2 0 1 rfl) (by decide), by decide, by decide, by decide, by decide, by decide⟩
+
+/-- renaming is invisible to the model of the library as written: a `note` step (the harness's record of
+    `current_thread().name = ..`) changes nothing and observes nothing, whatever the keying -/
+theorem C16_rename_is_noop (kg : Keying) (perf : Bool) (t : ThreadId) (a b : Nat) (g : GState) :
+    abs kg t (gStep kg perf t (.note a b) g).1 = abs kg t g ∧ (gStep kg perf t (.note a b) g).2 = .unit := by
+  have h := C16_gstep_simulates_local kg perf t (.note a b) g rfl
+  have e : localStep perf (abs kg t g) (.note a b) = (abs kg t g, .unit) := rfl
+  have := Prod.mk.inj (h.symm.trans e)
+  exact ⟨this.1, this.2⟩
+
 /-! ## objects the program shares between threads: the hypothesis on `t`'s own operations is necessary -/
 
 /-- thread 0 is inside `with V.override(5)`, thread 1 reads `V`; thread 0 fills the alru cache, thread 1 calls -/
